@@ -34,7 +34,15 @@ def _ss_narrow(T, k, start):
     return P.SSAdaptiveBoundedNormal(['a', 'b'], NARROW, jump_interval=k, jump_interval_duration=T)
 
 
-LOCAL_FAMILIES = {'ss_adaptive_bounded_normal_narrow': ('ss', _ss_narrow)}
+def _veitch_uneven(T, k, start):
+    # user-supplied initial widths that are not proportional to the prior widths: one width crosses zero long before the other
+    import numpy as _np
+    from epsie import proposals as P
+    return P.AdaptiveNormal(['a', 'b'], {'a': 8.0, 'b': 1.0}, adaptation_duration=T, start_step=start, jump_interval=k,
+                            initial_std=_np.array([0.004, 0.4]))
+
+
+LOCAL_FAMILIES = {'ss_adaptive_bounded_normal_narrow': ('ss', _ss_narrow), 'adaptive_normal_uneven_initial_std': ('veitch', _veitch_uneven)}
 
 
 def admissible(kind, s):
